@@ -30,6 +30,7 @@ def scenario(rec, idx, seed=0):
         sc["shape"].update(lagrange=True)
     sc["ccols"] = rec.get("ccols", 0)
     sc["layers"] = rec.get("layers", 0)
+    sc["layout"] = rec.get("layout", {})
     return sc
 
 
